@@ -372,8 +372,8 @@ def main(tier, replay=None):
     states += r.distinct
     trans += r.generated
     t0 = _lap('enum_tlc', t0)
-    items = [(r.dump, a, b, nrep) for a, b in mbt.split_dump(r.dump, 512 if r.distinct > 100000 else 128)]
-    out = watchdog.run(replay_states, items, procs=16, limit=LIMIT, init=_init, chunk=1)
+    items = [(r.dump, a, b, nrep) for a, b in mbt.split_dump(r.dump, max(128, r.distinct // 600))]
+    out = watchdog.run(replay_states, items, procs=16, limit=LIMIT, init=_init)
     os.remove(r.dump)
     n = 0
     for it, o in zip(items, out):
@@ -425,8 +425,9 @@ def main(tier, replay=None):
         classes[key] = classes.get(key, 0) + 1
         items.append((t, verdict == 'accept' and portable, False, src))
     t0 = _lap('classify_tlc', t0)
-    chunks = [items[i::128] for i in range(128)]
-    for ch, o in zip(chunks, watchdog.run(trace_work, chunks, procs=16, limit=LIMIT, init=_init, chunk=1)):
+    nch = max(128, len(items) // 40)
+    chunks = [items[i::nch] for i in range(nch)]
+    for ch, o in zip(chunks, watchdog.run(trace_work, chunks, procs=16, limit=LIMIT, init=_init)):
         if isinstance(o, dict) and o.get('__watchdog__'):
             raise SystemExit('machinery failure: no result for a chunk of given texts (%s); hangs are judged by C03' % o)
         bag.merge(o['bag'])
